@@ -1,4 +1,5 @@
 import ParryModel.C04.Model
+import ParryModel.C04.Model2D
 /-!
 # C04 model, glue: the boolean forms of the `RayCast` trait
 
@@ -35,5 +36,15 @@ def HalfSpace3.intersectsLocalRay (s : HalfSpace3 K) (ray : Ray3 K) (maxToi : K)
 /-- default `intersects_ray` for `HalfSpace` -/
 def HalfSpace3.intersectsRay (s : HalfSpace3 K) (m : Iso3 K) (ray : Ray3 K) (maxToi : K) : Bool :=
   s.intersectsLocalRay (ray.invTransform m) maxToi
+
+/-! ## 2-D crate: posed forms of `Ball` and `Cuboid` (default `cast_ray` / `cast_ray_and_get_normal`; the normal forms
+`Ball.castRayAndGetNormal2`, `Cuboid2.castRayAndGetNormal` are in `Model2D.lean`) -/
+
+/-- default `RayCast::cast_ray` for the 2-D `Ball` -/
+def Ball.castRay2 (s : Ball K) (m : Iso2 K) (ray : Ray2 K) (maxToi : K) (solid : Bool) : Option K :=
+  s.castLocalRay2 (ray.invTransform m) maxToi solid
+/-- default `RayCast::cast_ray` for the 2-D `Cuboid` -/
+def Cuboid2.castRay (big : K) (s : Cuboid2 K) (m : Iso2 K) (ray : Ray2 K) (maxToi : K) (solid : Bool) : Option K :=
+  s.castLocalRay big (ray.invTransform m) maxToi solid
 
 end Model
